@@ -78,6 +78,9 @@ def check(model: Model, run: Run) -> None:
         raise AnalysisError("unresolved call sites on the schema from_string paths: " + "; ".join(sorted(set(mr.unknown_calls))[:5]))
     space_tolerant_extraction(model, run)
     extension_cut_positions(model, run)
+    # totality includes returning at all: no exponentially ambiguous loop in the description patterns (engine shared with C18)
+    from .c18 import ambiguity
+    ambiguity(model, run, "G6-no-exponential-backtracking", SCHEMA, 3, 3)
     unescape_single_pass(model, run)
 
 
